@@ -188,6 +188,7 @@ def run(ctx, col, tier):
     col.guard(stateless.check, ctx, col, "R-STATE", ("swcgeom.transforms.tree", "swcgeom.transforms.geometry", "swcgeom.transforms.branch", "swcgeom.transforms.branch_tree", "swcgeom.transforms.base", "swcgeom.transforms.path", "swcgeom.transforms.population"))
     from ..rules import ignoredparam
     ignoredparam.run(ctx, col, ('swcgeom.transforms.tree', 'swcgeom.transforms.geometry', 'swcgeom.transforms.branch', 'swcgeom.transforms.branch_tree', 'swcgeom.transforms.base', 'swcgeom.transforms.path', 'swcgeom.transforms.population', 'swcgeom.core.tree_utils', 'swcgeom.core.tree_utils_impl', 'swcgeom.core.swc_utils.subtree', 'swcgeom.core.swc_utils.normalizer'))
+    col.guard(subtree_root, ctx, col)
     col.guard(mustpass, ctx, col)
     col.guard(writeset, ctx, col)
     col.guard(compose, ctx, col)
@@ -354,3 +355,18 @@ def compose(ctx, col):
     col.judge(len(body) == 2 and isinstance(body[0], ast.For), ok, "R-COMPOSE", d.qualname, d.loc(),
               "x = t(x) for each component in order, then return x", "",
               "pipeline body is not the sequential composition of its components", stmt="compose")
+
+
+def subtree_root(ctx, col):
+    """Sub-tree extraction: node 0 of the result is the requested node (ids in traversal order, start node first)."""
+    d = ctx.repo.get_def("swcgeom.core.tree_utils_impl.get_subtree_impl")
+    col.rule("R-ROOT0", "sub-tree extraction keeps the start node first: ids are collected in traversal order from the start node, that order is kept, "
+             "and the first of them becomes the root", floor=4, shape=True)
+    col.text_group("R-ROOT0", d.qualname, d, [
+        ("ids are collected by a traversal that starts at the requested node (pre-order: the start node comes first)",
+         ["traverse(topo, enter=lambda n, _: ids.append(n), root=n)"], "sub:collect"),
+        ("that order is kept", ["sub_ids = np.array(ids, dtype=np.int32)"], "sub:order"),
+        ("parents of the kept nodes", ["sub_pid = swc_like.pid()[sub_ids]"], "sub:pid"),
+        ("the first kept node (the start node) becomes the root", ["sub_pid[0] = -1"], "sub:root"),
+        ("the rest is renumbered by the common routine", ["return to_subtree_impl(swc_like, (sub_ids, sub_pid), out_mapping=out_mapping)"], "sub:impl")],
+        fixed=("swc_like", "n", "traverse", "to_subtree_impl", "out_mapping"))
